@@ -470,6 +470,23 @@ func (a *FuncAn) projectValue(v ssa.Value, proj []int) (cterm, bool) {
 							return a.projectValue(sv, proj[i+1:])
 						}
 					}
+					// an enclosing struct is available (e.g. a value receiver spilled to a local): project it
+					for j := len(p.steps) - 1; j >= 0; j-- {
+						if p.steps[j].st == nil {
+							break
+						}
+						pk := fmt.Sprintf("%p", p.root)
+						for _, s := range p.steps[:j] {
+							pk += s.key
+						}
+						if sv, ok := snap[pk]; ok {
+							var chain []int
+							for _, s := range p.steps[j:] {
+								chain = append(chain, s.field)
+							}
+							return a.projectValue(sv, append(chain, proj...))
+						}
+					}
 				}
 			}
 		}
